@@ -389,6 +389,30 @@ macro_rules
       | with_reducible exact tight_of_same (goArith_pres _ _ _ _)
       | with_reducible exact tight_goGet _ _ _ (by tside) (by tside))
 
+/-- `value.ThrowException`: the run fails after allocating the exception value — nothing but the heap changes, the pinned
+cells stay (a failed run owes no more) -/
+theorem tight_throwException {Z : Zone ν} {α : Type} {Q : α → Prop} (msg : String) :
+    Tight Z Q (throwException msg : M ν α) := by
+  constructor
+  intro s r s' hi h
+  have hrun : (throwException msg : M ν α) s =
+      (.err (.sigExc s.heap.size), { s with heap := s.heap.push (.exc msg) }) := rfl
+  rw [hrun] at h
+  injection h with h1 h2
+  subst h2
+  refine ⟨SameBut.push s _, fun i hw => ?_, fun a ha => by rw [← h1] at ha; cases ha⟩
+  have hlt : i < s.heap.size := by
+    rcases Nat.lt_or_ge i s.heap.size with hlt | hge
+    · exact hlt
+    · exact absurd (hi.fresh i hge) hw
+  show (s.heap.push (.exc msg))[i]? = _
+  rw [(Ext.push s.heap _).2 i hlt]
+  exact hi.keep i hw
+
+macro_rules
+  | `(tactic| tight_step) => `(tactic| with_reducible exact tight_throwException _)
+
+set_option maxHeartbeats 1600000 in
 /-- **every built-in method, on a writable receiver with tainted arguments**: whatever its name, its arguments and its
 outcome, it changes nothing but the heap, leaves the pinned cells alone, and — when it succeeds — every cell it wrote or
 allocated is a data cell whose links are tainted (old links of the receiver, duplicates, or new cells) -/
